@@ -3,7 +3,7 @@ From Coq Require Import List NArith ZArith Permutation.
 Import ListNotations.
 Require Import ITree.Model.Common ITree.Model.RBTree ITree.Model.Pool ITree.Model.MapModel ITree.Model.KeyModel.
 Require Import ITree.Spec.MapSpec ITree.Proofs.PoolProofs ITree.Proofs.MapProofs ITree.Proofs.MapTheorems
-  ITree.Proofs.KeyListProofs ITree.Proofs.KeyProofs ITree.Proofs.KeyRefine ITree.Proofs.KeyTheorems.
+  ITree.Proofs.KeyListProofs ITree.Proofs.KeyProofs ITree.Proofs.KeyRefine ITree.Proofs.KeyTheorems ITree.Proofs.PoolBound.
 
 (* map / set: in every reachable state the slots of the tree and the free list are duplicate-free
    together and are exactly the slots 1 .. blen-1 (slot 0, the sentinel, is in neither) *)
@@ -34,3 +34,23 @@ Proof. exact pool_get_wf. Qed.
 
 Theorem C11_put : forall (used: list N) (p: pool) (f: N), pool_wf (f :: used) p -> pool_wf used (pool_put p f).
 Proof. exact pool_put_wf. Qed.
+
+(* storage bound (map / set): the number of slots ever allocated is at most
+   3 * (peak population + 1) + max(capacity hint, 8), for every valid history of any length; [peak] is
+   the largest number of simultaneously stored entries, computed on the reference semantics *)
+Theorem C11_bound_map : forall (cap: N) (h: list uop) (s: mstate) (outs: list uout),
+  valid_history [] h -> u_run (m_new cap) h = Ret (s, outs) ->
+  (blen (pl s) <= 3 * (PoolBound.peak [] h + 1) + N.max cap 8)%N.
+Proof. exact PoolBound.map_slots_bounded. Qed.
+
+(* the two pool steps behind it, shared by all three trees (the expiring-key tree frees slots from
+   inside queries; its bound is checked on the real code after every operation of the correspondence
+   run, against the peak number of physically stored entries) *)
+Theorem C11_bound_get : forall (c0 p: N) (used: list N) (pl: pool) (i: N) (pl': pool),
+  pool_wf used pl -> pool_get pl = Some (i, pl') -> (N.of_nat (length used) <= p)%N ->
+  PoolBound.Bnd c0 p pl -> PoolBound.Bnd c0 (N.max p (N.of_nat (length used) + 1)) pl'.
+Proof. exact PoolBound.pool_get_bnd. Qed.
+
+Theorem C11_bound_put : forall (c0 p: N) (used: list N) (pl: pool) (f: N),
+  pool_wf (f :: used) pl -> PoolBound.Bnd c0 p pl -> PoolBound.Bnd c0 p (pool_put pl f).
+Proof. exact PoolBound.pool_put_bnd. Qed.
